@@ -153,6 +153,9 @@ def bank_problems(i: int, e: dict, index: dict):
                         first = index[(cc, code)][0]
                         ob(o.bank == first and o.bank.get("bank_code") == code,
                            "bank-not-found-again-from-IBAN", first, o.bank)
+                        for sig, e2, o2 in c12.generated_iban_problems(index, cc, code):
+                            ob(False, sig, e2, o2)
+                        n += 1
                         cands = lookup.candidates(cc, code)
                         got = o.bic
                         if cands:
